@@ -21,7 +21,8 @@ Monitors (each counts its own evaluations)
   tensor-subs-model             eval(d).subs(s) (Tensor.subs, on the sympified array) == the same model
   tensor-subs-raw               the same on the evaluation as returned (plain numbers included)
   cqmap-subs-model              the same on the CQMap of a mixed evaluation
-  lambdify-equals-subs-diagram  structural equality up to float rounding
+  lambdify-equals-subs-diagram  structural equality up to float rounding; the function returned by
+                                d.lambdify(*xs) is kept and called 2-3 times, every call is checked
   lambdify-eval-model           eval(d.lambdify(xs)(vs)) == model
   lambdify-equals-subs-eval     eval(lambdified) == eval(substituted)
   box-lambdify-equals-box-subs  box by box, also when the whole call raised
@@ -62,8 +63,9 @@ COVER = {
 MIN_EVALS = {
     "quick": {"free-symbols-exact": 1400, "attributes-preserved": 8500,
               "subs-box-data": 4500, "eval-commutes": 2000,
-              "tensor-subs-model": 1700, "lambdify-eval-model": 280,
-              "lambdify-equals-subs-diagram": 300,
+              "tensor-subs-model": 1700, "lambdify-returns": 800,
+              "lambdify-eval-model": 750,
+              "lambdify-equals-subs-diagram": 800,
               "total-reports-no-symbols": 1300},
     "thorough": {"eval-commutes": 20000, "tensor-subs-model": 15000,
                  "lambdify-eval-model": 2500, "subs-box-data": 40000}}
@@ -265,6 +267,18 @@ CAP = 10          # recorded occurrences per listed mechanism and shard
 _SEEN = {}
 
 
+_LISTED = []
+
+
+def listed_predicates():
+    """ Predicates of the entries with status "known" (read once, read-only). """
+    if not _LISTED:
+        from verif import findings
+        _LISTED.append({e.get("predicate") for e in findings.load(ID)
+                        if e.get("status") == "known"})
+    return _LISTED[0]
+
+
 def report(ctx, monitor, **witness):
     """
     Records a failure.  The runner keeps at most 400 violations verbatim per
@@ -275,6 +289,8 @@ def report(ctx, monitor, **witness):
     """
     w = {k: (v() if callable(v) else v) for k, v in witness.items()}
     for name, pred in PREDICATES.items():
+        if name not in listed_predicates():
+            continue          # only mechanisms still listed as known are capped
         try:
             hit = pred(monitor, w)
         except Exception:
@@ -392,15 +408,21 @@ def gen_tensor(rng, syms):
         cod = [rng.choice([2, 2, 3]) for _ in range(rng.randint(0, max(0, min(2, room))))]
         size = int(numpy.prod(dom + cod)) if dom + cod else 1
         symbolic = k == symbolic_at or rng.random() < 0.5
+        # where the symbol certainly goes: not always the first entry (an
+        # array rebuilt with a dtype inferred from a leading plain integer
+        # must still hold the substituted values)
+        forced = rng.randrange(size) if rng.random() < 0.6 else 0
         entries = []
         for i in range(size):
-            if symbolic and (rng.random() < 0.45 or i == 0):
+            if symbolic and (rng.random() < 0.45 or i == forced):
                 entries.append(rand_expr(rng, syms))
+            elif i == 0 and rng.random() < 0.5:
+                entries.append(rng.choice([1, 0, 2, -1]))
             else:
                 entries.append(rand_number(rng))
         container = rng.choice(["list", "list", "list", "nested", "tuple"])
         if info.get("want_ndarray") is None:
-            info["want_ndarray"] = rng.random() < 0.07
+            info["want_ndarray"] = rng.random() < 0.3
         if info["want_ndarray"] and symbolic:
             container = "ndarray"
         if container == "nested" and dom + cod:
@@ -515,9 +537,11 @@ def classical_gate(rng, syms, n_in, n_out, dagger=None):
     from discopy.quantum import gates as g
     dagger = rng.random() < 0.4 if dagger is None else dagger
     size = 2 ** (n_in + n_out)
+    forced = rng.randrange(size) if rng.random() < 0.6 else 0
     entries = [rand_expr(rng, syms, functions=False)
-               if (rng.random() < 0.4 or i == 0)
-               else rng.choice([0, 1, 0.5, 2]) for i in range(size)]
+               if (i == forced or (rng.random() < 0.4
+                                   and not (i == 0 and forced and rng.random() < 0.7)))
+               else rng.choice([0, 1, 0.5, 2, 1]) for i in range(size)]
     name = rng.choice("fgh")
     if dagger:
         return g.ClassicalGate(name, n_out, n_in, entries).dagger()
@@ -1012,9 +1036,8 @@ def run_case(rng, ctx):
             ctx, rng, arm, d, drepr, classes, present, style, args_list,
             evaluable, mixed, original, original_tensor, info)
         subs_done.append(style)
-    for _ in range(2 if ctx.index % 2 else 1):
-        reached += one_lambdify(ctx, rng, arm, d, drepr, classes, present,
-                                evaluable, mixed, original, info)
+    reached += one_lambdify(ctx, rng, arm, d, drepr, classes, present,
+                            evaluable, mixed, original, info)
     if reached:
         ctx.mark(arm + "|" + drepr)
     if ctx.index < 14:
@@ -1120,14 +1143,34 @@ def one_lambdify(ctx, rng, arm, d, drepr, classes, present, evaluable, mixed,
             ctx.count("lambdify-on-a-strict-subset")
     if rng.random() < 0.2:
         xs.insert(rng.randint(0, len(xs)), _S["fresh"][0])
-    vs = [rand_value(rng, rng.choice(["float", "float", "int"])) for _ in xs]
-    sigma = safe_repr(list(zip(xs, vs)), 300)
-    base = dict(op="lambdify", style="lambdify", arm=arm, diagram=drepr,
-                sigma=sigma, classes=classes,
-                ndarray_payload=bool(info.get("ndarray")))
     if info.get("has_dict"):
         ctx.count("lambdify-skipped-dict-payload")
         return 0
+    # the lambdified diagram is a function: it is kept and called several
+    # times with different values, and every call is checked
+    ncalls = 3 if ctx.index % 2 else 2
+    values = [[rand_value(rng, rng.choice(["float", "float", "int"]))
+               for _ in xs] for _ in range(ncalls)]
+    if ncalls == 3:
+        values[2] = list(values[0])          # and once more the first point
+    try:
+        function = d.lambdify(*xs)
+    except Exception:
+        function = None                      # reported by the first call
+    reached = 0
+    for call, vs in enumerate(values):
+        reached += one_call(ctx, rng, arm, d, drepr, classes, present,
+                            evaluable, mixed, original, info, function, xs,
+                            vs, call)
+    return 1 if reached else 0
+
+
+def one_call(ctx, rng, arm, d, drepr, classes, present, evaluable, mixed,
+             original, info, function, xs, vs, call):
+    sigma = safe_repr(list(zip(xs, vs)), 300)
+    base = dict(op="lambdify", style="lambdify", arm=arm, diagram=drepr,
+                sigma=sigma, classes=classes, call=call,
+                ndarray_payload=bool(info.get("ndarray")))
     pairs = list(zip(xs, vs))
     envs = sym.random_points(rng, set(present) | set(xs), n=2)
     try:
@@ -1135,12 +1178,15 @@ def one_lambdify(ctx, rng, arm, d, drepr, classes, present, evaluable, mixed,
     except Exception:
         sub = None            # reported by the substitution monitors
     try:
-        lam = d.lambdify(*xs)(*vs)
+        if function is None:
+            function = d.lambdify(*xs)       # raises again, with its reason
+        lam = function(*vs)
     except Exception as err:
         report(ctx, "lambdify-returns", exception=type(err).__name__,
                message=str(err)[:300], **locate_failing(
                    d, lambda box: box.lambdify(*xs)(*vs), err, xs), **base)
-        box_by_box(ctx, d, xs, vs, pairs, envs, base)
+        if call == 0:
+            box_by_box(ctx, d, xs, vs, pairs, envs, base)
         return 0
     ctx.ok("lambdify-returns")
     changes = attribute_changes(ctx, d, lam, base)
